@@ -3,6 +3,7 @@
    amount of optional white space the pattern allows, every value of the rendering's value
    class (all lengths, all code points of the class), the designated pattern applied to the
    rendering R(K,d,v) yields R(K,d,mask). *)
+From Coq Require Import String.
 Require Import OV.Base.Bytes OV.Base.PyInt OV.Base.Str OV.Base.Regex OV.Base.C04_Tmpl.
 Require Import OV.Gen.Unicode OV.Gen.C04_Sanitize OV.Model.C04 OV.Model.C04_Spec OV.Proofs.C04_Regex OV.Proofs.C04.
 Open Scope N_scope.
@@ -263,3 +264,41 @@ Proof.
   eapply gm_sub_two' with (tbl := gen_ci_table) (h := K ++ d ++ w1 ++ 45 :: dash ++ fl ++ w2) (v := v) (t := w3); finish2 ltac:(cbv [gen_tp2_9]; gm_go).
 Qed.
 End Renderings.
+
+(* ---------- the two renderings without a universal theorem ----------
+   Patterns 2[7] and 2[8] start with a quote, then a run of non-quotes, then the key: the greedy run first swallows the key and the
+   matcher has to backtrack, so the first-attempt relation [gm] does not apply.  What is missing: soundness
+   of [m] w.r.t. the denoted language and completeness of [try_counts]; with them every successful parse is
+   forced by the four quotes of the rendering.  Both renderings are covered for all 35 keys by
+   C04_mask_whole_bounded and by the correspondence / oracle of the harness. *)
+Definition opt_u (u : str) : Prop := u = [] \/ u = [117] \/ u = [85].
+
+(* '…k': u'v'  — any quote-free prefix inside the key string, optional u    [_FORMAT_PATTERNS_2[7]] *)
+Definition rendering_masked_json_prefix_full_statement : Prop :=
+  forall k K d, forallb key_char k = true -> casing_of k K -> forallb ascii_digit d = true ->
+  forall q1 pfx q2 w1 w2 u q3 q4 v mask,
+  is_quote q1 = true -> is_quote q2 = true -> is_quote q3 = true -> is_quote q4 = true ->
+  forallb quoted_char pfx = true -> forallb is_space w1 = true -> forallb is_space w2 = true -> opt_u u ->
+  forallb quoted_char v = true ->
+  re_sub (gen_tp2_7 k) (t2 mask) (q1 :: pfx ++ K ++ d ++ q2 :: w1 ++ 58 :: w2 ++ u ++ q3 :: v ++ [q4])
+  = q1 :: pfx ++ K ++ d ++ q2 :: w1 ++ 58 :: w2 ++ u ++ q3 :: mask ++ [q4].
+
+(* 'k', '--flag', 'v'                                                        [_FORMAT_PATTERNS_2[8]] *)
+Definition rendering_masked_cmd1_full_statement : Prop :=
+  forall k K d, forallb key_char k = true -> casing_of k K -> forallb ascii_digit d = true ->
+  forall q1 pfx q2 w1 w2 dash fl w3 w4 u q3 q4 v mask,
+  is_quote q1 = true -> is_quote q2 = true -> is_quote q3 = true -> is_quote q4 = true ->
+  forallb quoted_char pfx = true -> forallb is_space w1 = true -> forallb is_space w2 = true ->
+  (dash = [] \/ dash = [45]) -> all_in cs_flag fl = true -> (1 <= length fl)%nat ->
+  forallb is_space w3 = true -> forallb is_space w4 = true -> opt_u u -> forallb quoted_char v = true ->
+  re_sub (gen_tp2_8 k) (t2 mask)
+    (q1 :: pfx ++ K ++ d ++ q2 :: w1 ++ 44 :: w2 ++ 39 :: 45 :: dash ++ fl ++ 39 :: w3 ++ 44 :: w4 ++ u ++ q3 :: v ++ [q4])
+  = q1 :: pfx ++ K ++ d ++ q2 :: w1 ++ 44 :: w2 ++ 39 :: 45 :: dash ++ fl ++ 39 :: w3 ++ 44 :: w4 ++ u ++ q3 :: mask ++ [q4].
+
+(* bounded instances of both (fixed key and shape), by computation *)
+Lemma rendering_masked_json_prefix_partial :
+  re_sub (gen_tp2_7 (lit "password")) (t2 (lit "***")) (lit "'original_Password2' : u'a b=c'") = lit "'original_Password2' : u'***'".
+Proof. vm_compute. reflexivity. Qed.
+Lemma rendering_masked_cmd1_partial :
+  re_sub (gen_tp2_8 (lit "password")) (t2 (lit "***")) (lit "'--os-PASSWORD', '--x', u'a b'") = lit "'--os-PASSWORD', '--x', u'***'".
+Proof. vm_compute. reflexivity. Qed.
